@@ -285,3 +285,262 @@ Theorem C19_slist_dead_node_is_ub :
     sl_node_pop s n = UB UseAfterFree.
 Proof. exact @sl_dead_node_is_ub. Qed.
 Print Assumptions C19_slist_dead_node_is_ub.
+
+(* ---- hash table (ares_htable.c + typed wrappers): coq/Dsa/Htable.v, Htable_proofs.v ---- *)
+From CAres.Dsa Require Import Htable Htable_proofs.
+
+(* MAIN: every operation sequence from ares_htable_create, ANY hash function compatible with
+   the key equality, any seed, any allocator behaviour: the model is never UB, never takes the
+   "impossible" pool-exhausted branch of ares_htable_expand, and its observable results
+   (insert/remove return values and freed entries, get results, counts, iteration and the
+   entries freed by destroy as multisets) are those of the association-list specification;
+   an insert reports failure only if the allocator refused a request during the call, and
+   then the map is unchanged. *)
+Theorem C19_ht_run_refines :
+  forall (K V : Type) (keq : K -> K -> bool) (hash : K -> Z -> Z),
+    (forall a : K, keq a a = true) ->
+    (forall a b : K, keq a b = keq b a) ->
+    (forall a b c : K, keq a b = true -> keq b c = true -> keq a c = true) ->
+    (forall (a b : K) (s : Z), keq a b = true -> hash a s = hash b s) ->
+    forall (vnull : V) (seed : Z) (ops : list (@ht_op K V)),
+    exists tr : list (@ht_obs K V),
+      ht_run_model keq hash vnull seed ops = Ok tr /\
+      Forall2 ht_obs_eq tr (ht_run_spec keq vnull ops (map (@ht_obs_ok K V) tr)) /\
+      ht_justified ops tr.
+Proof. exact @ht_run_refines. Qed.
+Print Assumptions C19_ht_run_refines.
+
+(* when the allocator never refuses, the results are a function of the operations alone *)
+Theorem C19_ht_run_refines_nofail :
+  forall (K V : Type) (keq : K -> K -> bool) (hash : K -> Z -> Z),
+    (forall a : K, keq a a = true) ->
+    (forall a b : K, keq a b = keq b a) ->
+    (forall a b c : K, keq a b = true -> keq b c = true -> keq a c = true) ->
+    (forall (a b : K) (s : Z), keq a b = true -> hash a s = hash b s) ->
+    forall (vnull : V) (seed : Z) (ops : list (@ht_op K V)),
+    Forall (fun op => ~ ht_op_can_fail op) ops ->
+    exists tr : list (@ht_obs K V),
+      ht_run_model keq hash vnull seed ops = Ok tr /\
+      Forall2 ht_obs_eq tr (ht_run_spec keq vnull ops []).
+Proof. exact @ht_run_refines_nofail. Qed.
+Print Assumptions C19_ht_run_refines_nofail.
+
+(* ... hence independent of the hash function and of the seed *)
+Theorem C19_ht_run_hash_independent :
+  forall (K V : Type) (keq : K -> K -> bool) (hash1 hash2 : K -> Z -> Z)
+         (vnull : V) (seed1 seed2 : Z) (ops : list (@ht_op K V)),
+    (forall a, keq a a = true) -> (forall a b, keq a b = keq b a) ->
+    (forall a b c, keq a b = true -> keq b c = true -> keq a c = true) ->
+    (forall a b s, keq a b = true -> hash1 a s = hash1 b s) ->
+    (forall a b s, keq a b = true -> hash2 a s = hash2 b s) ->
+    Forall (fun op => ~ ht_op_can_fail op) ops ->
+    exists tr1 tr2,
+      ht_run_model keq hash1 vnull seed1 ops = Ok tr1 /\
+      ht_run_model keq hash2 vnull seed2 ops = Ok tr2 /\
+      Forall2 ht_obs_eq tr1 tr2.
+Proof. exact @ht_run_hash_independent. Qed.
+Print Assumptions C19_ht_run_hash_independent.
+
+(* the invariant (size a power of two in [2^4, 2^24], every entry in bucket HASH_IDX of its
+   key, no key twice, num_keys = number of entries, num_collisions = sum of (len - 1)) is
+   preserved by every operation sequence, growth included *)
+Theorem C19_ht_invariant_preserved :
+  forall (K V : Type) (keq : K -> K -> bool) (hash : K -> Z -> Z),
+    (forall a : K, keq a a = true) ->
+    (forall a b : K, keq a b = keq b a) ->
+    (forall a b c : K, keq a b = true -> keq b c = true -> keq a c = true) ->
+    (forall (a b : K) (s : Z), keq a b = true -> hash a s = hash b s) ->
+    forall (vnull : V) (ops : list (@ht_op K V)) (h h' : @ht K V),
+    ht_inv keq hash h ->
+    ht_exec keq hash vnull h ops = Ok h' ->
+    (exists n, 4 <= n <= 24 /\ ht_size h' = 2 ^ n) /\
+    length (ht_buckets h') = ht_size h' /\
+    (forall i b e, nth_error (ht_buckets h') i = Some b -> In e (ht_nodes b) ->
+                   ht_idx hash (ht_size h') (ht_seed h') (fst e) = i) /\
+    ht_nodup keq (ht_entries_of (ht_buckets h')) /\
+    ht_num_keys h' = length (ht_entries_of (ht_buckets h')) /\
+    ht_num_collisions h' = list_sum (map (fun b => length (ht_nodes b) - 1) (ht_buckets h')).
+Proof. exact @ht_exec_inv. Qed.
+Print Assumptions C19_ht_invariant_preserved.
+
+(* get after a successful insert returns the latest value (also when the insert grew the
+   table); other keys are unaffected *)
+Theorem C19_ht_latest_value :
+  forall (K V : Type) (keq : K -> K -> bool) (hash : K -> Z -> Z),
+    (forall a b : K, keq a b = keq b a) ->
+    (forall a b c : K, keq a b = true -> keq b c = true -> keq a c = true) ->
+    (forall (a b : K) (s : Z), keq a b = true -> hash a s = hash b s) ->
+    forall (o : list bool) (h : @ht K V) (k : K) (v : V) (h' : @ht K V) (r : ht_ins_result) (k' : K),
+    ht_inv keq hash h ->
+    ht_insert keq hash o h (k, v) = Ok (h', r) ->
+    r <> HtFailed ->
+    ht_get keq hash h' k' = (if keq k' k then Ok (Some (k, v)) else ht_get keq hash h k').
+Proof. exact @ht_get_after_insert. Qed.
+Print Assumptions C19_ht_latest_value.
+
+(* insert of an existing key keeps the count, a new key adds one *)
+Theorem C19_ht_count_after_insert :
+  forall (K V : Type) (keq : K -> K -> bool) (hash : K -> Z -> Z),
+    (forall a b : K, keq a b = keq b a) ->
+    (forall a b c : K, keq a b = true -> keq b c = true -> keq a c = true) ->
+    (forall (a b : K) (s : Z), keq a b = true -> hash a s = hash b s) ->
+    forall (o : list bool) (h : @ht K V) (e : ht_entry) (h' : @ht K V) (r : ht_ins_result),
+    ht_inv keq hash h ->
+    ht_insert keq hash o h e = Ok (h', r) ->
+    r <> HtFailed ->
+    ht_num_keys h' = match hts_get keq (fst e) (ht_entries h) with
+                     | Some _ => ht_num_keys h
+                     | None => S (ht_num_keys h)
+                     end.
+Proof. exact @ht_num_keys_after_insert. Qed.
+Print Assumptions C19_ht_count_after_insert.
+
+(* remove reports (and frees) the binding that was present; afterwards the key is absent,
+   other keys are unaffected, the count drops by one iff something was removed *)
+Theorem C19_ht_remove :
+  forall (K V : Type) (keq : K -> K -> bool) (hash : K -> Z -> Z),
+    (forall a b : K, keq a b = keq b a) ->
+    (forall a b c : K, keq a b = true -> keq b c = true -> keq a c = true) ->
+    (forall (a b : K) (s : Z), keq a b = true -> hash a s = hash b s) ->
+    forall (h : @ht K V) (k : K) (h' : @ht K V) (r : option ht_entry) (k' : K),
+    ht_inv keq hash h ->
+    ht_remove keq hash h k = Ok (h', r) ->
+    ht_inv keq hash h' /\
+    r = hts_get keq k (ht_entries h) /\
+    ht_get keq hash h' k' = (if keq k' k then Ok None else ht_get keq hash h k') /\
+    ht_num_keys h' = match r with Some _ => ht_num_keys h - 1 | None => ht_num_keys h end.
+Proof. exact @ht_get_after_remove. Qed.
+Print Assumptions C19_ht_remove.
+
+(* ares_htable_all_buckets returns exactly the bindings: no key twice, num_keys many, and
+   get of any key is the lookup in that list *)
+Theorem C19_ht_iteration :
+  forall (K V : Type) (keq : K -> K -> bool) (hash : K -> Z -> Z),
+    (forall (a b : K) (s : Z), keq a b = true -> hash a s = hash b s) ->
+    forall (h : @ht K V) (l : list ht_entry),
+    ht_inv keq hash h ->
+    ht_all_buckets true h = Ok (Some l) ->
+    l = ht_entries h /\ ht_nodup keq l /\ length l = ht_num_keys h /\
+    (forall k : K, ht_get keq hash h k = Ok (hts_get keq k l)).
+Proof. exact @ht_all_buckets_bindings. Qed.
+Print Assumptions C19_ht_iteration.
+
+(* the pre-allocated list pool always suffices: under the invariant ares_htable_expand ends
+   normally (never Err HT_POOL_EXHAUSTED, never UB) *)
+Theorem C19_ht_expand_pool_suffices :
+  forall (K V : Type) (keq : K -> K -> bool) (hash : K -> Z -> Z),
+    (forall a b : K, keq a b = keq b a) ->
+    forall (o : list bool) (h : @ht K V),
+    ht_inv keq hash h ->
+    exists (h' : @ht K V) (ok : bool) (o' : list bool), ht_expand hash o h = Ok (h', ok, o').
+Proof. exact @ht_expand_pool_suffices. Qed.
+Print Assumptions C19_ht_expand_pool_suffices.
+
+(* the counting argument itself: a pool of at least sum (len - 1) lists is never exhausted *)
+Theorem C19_ht_rehash_pool_suffices :
+  forall (K V : Type) (hash : K -> Z -> Z) (n : nat) (seed : Z)
+         (bs nb : list (@ht_bucket K V)) (pool coll : nat),
+    ht_acc_ok hash (2 ^ n) seed nb coll ->
+    ht_coll_of bs <= pool ->
+    ht_rehash hash (2 ^ n) seed bs nb pool coll <> Err HT_POOL_EXHAUSTED.
+Proof. exact @ht_rehash_pool_suffices. Qed.
+Print Assumptions C19_ht_rehash_pool_suffices.
+
+(* C14 atomicity: a refused request among those the growth makes leaves the table exactly as
+   it was (any table, no invariant needed) ... *)
+Theorem C19_ht_expand_alloc_fail_atomic :
+  forall (K V : Type) (hash : K -> Z -> Z) (o : list bool) (h : @ht K V),
+    In false (firstn (ht_expand_requests h) o) ->
+    exists o' : list bool, ht_expand hash o h = Ok (h, false, o').
+Proof. exact @ht_expand_alloc_fail_atomic. Qed.
+Print Assumptions C19_ht_expand_alloc_fail_atomic.
+
+(* ... and the insert that needed the growth returns ARES_FALSE without inserting *)
+Theorem C19_ht_insert_growth_fail_atomic :
+  forall (K V : Type) (keq : K -> K -> bool) (hash : K -> Z -> Z),
+    (forall a b : K, keq a b = keq b a) ->
+    (forall a b c : K, keq a b = true -> keq b c = true -> keq a c = true) ->
+    (forall (a b : K) (s : Z), keq a b = true -> hash a s = hash b s) ->
+    forall (o : list bool) (h : @ht K V) (e : K * V),
+    ht_inv keq hash h ->
+    hts_get keq (fst e) (ht_entries h) = None ->
+    ht_should_expand h = true ->
+    In false (firstn (ht_expand_requests h) o) ->
+    ht_insert keq hash o h e = Ok (h, HtFailed).
+Proof. exact @ht_insert_growth_fail_atomic. Qed.
+Print Assumptions C19_ht_insert_growth_fail_atomic.
+
+(* C14 atomicity: any failed insert leaves the map, every lookup and the count unchanged,
+   keeps the invariant, and happens only when the allocator refused a request *)
+Theorem C19_ht_insert_alloc_fail_atomic :
+  forall (K V : Type) (keq : K -> K -> bool) (hash : K -> Z -> Z),
+    (forall a b : K, keq a b = keq b a) ->
+    (forall a b c : K, keq a b = true -> keq b c = true -> keq a c = true) ->
+    (forall (a b : K) (s : Z), keq a b = true -> hash a s = hash b s) ->
+    forall (o : list bool) (h : @ht K V) (e : ht_entry) (h' : @ht K V),
+    ht_inv keq hash h ->
+    ht_insert keq hash o h e = Ok (h', HtFailed) ->
+    ht_inv keq hash h' /\
+    Permutation (ht_entries h') (ht_entries h) /\
+    In false o /\
+    (forall k : K, ht_get keq hash h' k = ht_get keq hash h k) /\
+    ht_num_keys h' = ht_num_keys h.
+Proof. exact @ht_insert_alloc_fail_atomic. Qed.
+Print Assumptions C19_ht_insert_alloc_fail_atomic.
+
+(* typed wrappers: numeric keys compared with == (szvp, asvp, vpvp, vpstr): ANY hash function *)
+Theorem C19_ht_szvp_run_refines :
+  forall (hash : Z -> Z -> Z) (seed : Z) (ops : list (@ht_op Z Z)),
+  exists tr, ht_run_model ht_szvp_keq hash 0%Z seed ops = Ok tr /\
+    Forall2 ht_obs_eq tr (ht_run_spec ht_szvp_keq 0%Z ops (map (@ht_obs_ok Z Z) tr)) /\
+    ht_justified ops tr.
+Proof. exact ht_szvp_run_refines. Qed.
+Print Assumptions C19_ht_szvp_run_refines.
+
+(* case-insensitive string keys (strvp, dict): any hash function that ignores case ... *)
+Theorem C19_ht_strvp_run_refines :
+  forall (hash : list Z -> Z -> Z) (seed : Z) (ops : list (@ht_op (list Z) Z)),
+  (forall a b s, ht_strcaseeq a b = true -> hash a s = hash b s) ->
+  exists tr, ht_run_model ht_strcaseeq hash 0%Z seed ops = Ok tr /\
+    Forall2 ht_obs_eq tr (ht_run_spec ht_strcaseeq 0%Z ops (map (@ht_obs_ok (list Z) Z) tr)) /\
+    ht_justified ops tr.
+Proof. exact ht_strvp_run_refines. Qed.
+Print Assumptions C19_ht_strvp_run_refines.
+
+(* ... in particular the library's ares_htable_hash_FNV1a_casecmp *)
+Theorem C19_ht_strvp_run_refines_fnv :
+  forall (seed : Z) (ops : list (@ht_op (list Z) Z)),
+  exists tr, ht_run_model ht_strcaseeq ht_fnv1a_casecmp 0%Z seed ops = Ok tr /\
+    Forall2 ht_obs_eq tr (ht_run_spec ht_strcaseeq 0%Z ops (map (@ht_obs_ok (list Z) Z) tr)) /\
+    ht_justified ops tr.
+Proof. exact ht_strvp_run_refines_fnv. Qed.
+Print Assumptions C19_ht_strvp_run_refines_fnv.
+
+(* the main statement with literal equality: return values, freed entries, get results,
+   counts and SORTED iteration of the model run equal those of the specification run, for
+   any total order [leb] on the entries used for sorting *)
+Theorem C19_ht_run_refines_sorted :
+  forall (K V : Type) (keq : K -> K -> bool) (hash : K -> Z -> Z)
+         (leb : @ht_entry K V -> @ht_entry K V -> bool) (vnull : V) (seed : Z) (ops : list (@ht_op K V)),
+    (forall a, keq a a = true) -> (forall a b, keq a b = keq b a) ->
+    (forall a b c, keq a b = true -> keq b c = true -> keq a c = true) ->
+    (forall a b s, keq a b = true -> hash a s = hash b s) ->
+    (forall a b, leb a b = true \/ leb b a = true) ->
+    (forall a b c, leb a b = true -> leb b c = true -> leb a c = true) ->
+    (forall a b, leb a b = true -> leb b a = true -> a = b) ->
+    Forall (fun op => ~ ht_op_can_fail op) ops ->
+    exists tr, ht_run_model keq hash vnull seed ops = Ok tr /\
+      map (ht_obs_canon (ht_sort leb)) tr =
+      map (ht_obs_canon (ht_sort leb)) (ht_run_spec keq vnull ops []).
+Proof. exact @ht_run_refines_sorted. Qed.
+Print Assumptions C19_ht_run_refines_sorted.
+
+(* instance: numeric keys and values sorted by key then value, ANY hash function *)
+Theorem C19_ht_szvp_run_refines_sorted :
+  forall (hash : Z -> Z -> Z) (seed : Z) (ops : list (@ht_op Z Z)),
+    Forall (fun op => ~ ht_op_can_fail op) ops ->
+    exists tr, ht_run_model ht_szvp_keq hash 0%Z seed ops = Ok tr /\
+      map (ht_obs_canon (ht_sort ht_zz_leb)) tr =
+      map (ht_obs_canon (ht_sort ht_zz_leb)) (ht_run_spec ht_szvp_keq 0%Z ops []).
+Proof. exact ht_szvp_run_refines_sorted. Qed.
+Print Assumptions C19_ht_szvp_run_refines_sorted.
